@@ -32,6 +32,7 @@ THEOREMS = [
     "Pt.lower_reshape_total",
     "Pt.pad_sound",
     "Pt.lower_einsum_correct", "Pt.lower_advindex_correct",
+    "Pt.binop_sound", "Pt.where_sound", "Pt.api_emits_own_name",
 ]
 
 
@@ -851,6 +852,51 @@ def batch_binop(ctx, prop="C02"):
         owners.append(("eval", params, expr_s, expected, real))
         queries.append(f"(spec binop {mop} {_opd_wire(o1, True)} {_opd_wire(o2, True)} {flags})")
         owners.append(("spec", params, expr_s, expected, real))
+    # where: three operands; neg / logical_not / elementwise functions: one or two
+    w_shapes = [((2, 1), (2, 3), (3,)), ((2, 3), (2, 3), (2, 3)), ((), (2, 3), ()), ((3,), (), (2, 1))]
+    for sc_, sx_, sy_ in w_shapes:
+        for dx, dy in [("int64", "int64"), ("int64", "float64"), ("float64", "float64")]:
+            for xs in (None, ("py", 1), ("py", 2.5)):
+                for cs in (None, ("py", True)):
+                    oc = cs if cs else ("arr", sc_, "bool", _api_data(sc_, "bool", 1))
+                    ox = xs if xs else ("arr", sx_, dx, _api_data(sx_, dx, 2))
+                    oy = ("arr", sy_, dy, _api_data(sy_, dy, 5))
+                    tri = (oc, ox, oy)
+                    phs = [pt.make_placeholder(f"x{k}", o[1], o[2]) if o[0] == "arr" else o[1]
+                           for k, o in enumerate(tri)]
+                    real = pt.where(*phs)
+                    n += 1
+                    params = {"op": "where", "operands": [(o[0], o[1] if o[0] == "arr" else repr(o[1])) for o in tri]}
+                    expected = np.where(*[o[3] if o[0] == "arr" else o[1] for o in tri])
+                    expr_s = ser.sexpr(real.expr)
+                    binds = {f"_in{k}": o[3] for k, o in enumerate(tri) if o[0] == "arr"}
+                    bs = " ".join(ser.binding(nm, arr) for nm, arr in sorted(binds.items()))
+                    queries.append("(lower where " + " ".join(_opd_wire(o, False) for o in tri) + ")")
+                    owners.append(("text", params, expr_s, None, real))
+                    queries.append(f"(evalil {ser.shape(real.shape)} {expr_s} ({bs}))")
+                    owners.append(("eval", params, expr_s, expected, real))
+                    queries.append("(spec where " + " ".join(_opd_wire(o, True) for o in tri) + ")")
+                    owners.append(("spec", params, expr_s, expected, real))
+    for shp in [(), (3,), (2, 3), (0, 2)]:
+        xa = pt.make_placeholder("x0", shp, np.int64)
+        for label, real, q in [("neg", -xa, f"(lower neg {len(shp)})"),
+                               ("logical_not", pt.logical_not(pt.make_placeholder("x0", shp, np.bool_)),
+                                f"(lower not {len(shp)})")]:
+            n += 1
+            queries.append(q)
+            owners.append(("text", {"op": label, "shape": shp}, ser.sexpr(real.expr), None, real))
+        xf = pt.make_placeholder("x0", shp, np.float64)
+        if shp:
+            from ..extract import apinames
+            for api in apinames.CALL_API:
+                if api in ("real", "imag", "conj"):
+                    continue
+                real = getattr(pt, api)(xf, xf) if api == "arctan2" else getattr(pt, api)(xf)
+                n += 1
+                c99 = {"arcsin": "asin", "arccos": "acos", "arctan": "atan", "arctan2": "atan2"}.get(api, api)
+                args = "arr arr" if api == "arctan2" else "arr"
+                queries.append(f"(lower elemwise {c99} {len(shp)} ({args}))")
+                owners.append(("text", {"op": api, "shape": shp}, ser.sexpr(real.expr), None, real))
     ans = common.driver_query_parallel(queries)
     dis = 0
     last_eval = None
@@ -1092,6 +1138,8 @@ def run(ctx: common.Ctx):
         "einsum / advanced indexing / CSR lowering rules have no hand model yet: their real index lambdas are "
         "evaluated by the Lean evaluator and compared with NumPy (correspondence of semantics, no theorem about the rule)",
     ]
+    from ..extract import apinames
+    apinames.regenerate()     # PtGen/ApiNames.lean: what the live API functions emit (checked by api_emits_own_name)
     ctx.lean_obligations("PtProofs.C02", THEOREMS)
     for gen in GENS:
         name = gen.__name__[4:]
